@@ -93,8 +93,83 @@ def case(draw, tier):
     return {"script": script, "values": vals, "swaps": swaps, "edit": edit, "forms": {k: sorted(v) for k, v in forms.items()}}
 
 
+@st.composite
+def tdm_case(draw, tier):
+    """tdm template with bare {x} arguments; the program passes p-arrays (possibly the same one for several parameters)."""
+    n = draw(st.integers(1, 4))
+    npar = draw(st.integers(1, 3))
+    arrays = draw(st.lists(st.sampled_from(["p0", "p1", "p2", "p7"]), min_size=1, max_size=3, unique=True))
+    assign = {"x%d" % k: draw(st.sampled_from(arrays)) for k in range(npar)}
+    t_lines, p_lines = [], []
+    pending = list(assign)
+    for i in range(n):
+        op = draw(st.sampled_from(["Sgate", "Rgate", "BSgate"]))
+        modes = draw(st.lists(st.integers(0, 2), min_size=1, max_size=2, unique=True))
+        ta, pa = [], []
+        for _ in range(draw(st.integers(1, 2))):
+            if pending or draw(st.booleans()):
+                x = pending.pop(0) if pending else draw(st.sampled_from(sorted(assign)))
+                ta.append("{%s}" % x)
+                pa.append(assign[x])
+            else:
+                v = str(draw(st.sampled_from([0.0, 0.5, 1.25])))
+                ta.append(v)
+                pa.append(v)
+        m = "[%s]" % ", ".join(map(str, modes))
+        t_lines.append("%s(%s) | %s" % (op, ", ".join(ta), m))
+        p_lines.append("%s(%s) | %s" % (op, ", ".join(pa), m))
+    for x in pending:
+        t_lines.append("Rgate({%s}) | 0" % x)
+        p_lines.append("Rgate(%s) | 0" % assign[x])
+    decls = ["float array %s =\n    %s" % (a, ", ".join(str(draw(st.sampled_from([0.1, 0.25, 1.5, 2.0, 3.5]))) for _ in range(3))) for a in arrays]
+    head = "name tdmmatch\nversion 1.0\ntarget TD2 (shots=1)\ntype tdm (temporal_modes=3)\n"
+    swaps = draw(st.lists(st.integers(0, max(0, len(p_lines) - 2)), max_size=4))
+    return {"tdm": True, "template": head + "\n".join(t_lines) + "\n", "decls": head + "\n".join(decls) + "\n", "ops": p_lines,
+            "assign": assign, "swaps": swaps}
+
+
 def strategy(tier):
-    return case(tier)
+    return st.one_of(case(tier), case(tier), case(tier), case(tier), tdm_case(tier))
+
+
+def check_tdm(c):
+    import re as _re
+    import numpy as np
+    from blackbird.utils import match_template
+    lines = list(c["ops"])
+    applied = 0
+    for i in c["swaps"]:
+        if i + 1 < len(lines):
+            ma = set(_re.findall(r"\d+", lines[i].split("|")[1]))
+            mb = set(_re.findall(r"\d+", lines[i + 1].split("|")[1]))
+            if not (ma & mb):
+                lines[i], lines[i + 1] = lines[i + 1], lines[i]
+                applied += 1
+    p_text = c["decls"] + "\n".join(lines) + "\n"
+    T, e = K.safe_loads(c["template"])
+    P, e2 = K.safe_loads(p_text)
+    if e is not None or e2 is not None:
+        return Outcome(discard="load-failed")
+    reuse = len(set(c["assign"].values())) < len(c["assign"])
+    out = Outcome(key=c["template"] + "#####" + p_text, sample={"template": c["template"], "program": p_text},
+                  classes=["tdm-p-arrays"] + (["same-p-array-for-several-parameters"] if reuse else []) + (["commuting-swaps"] if applied else []))
+    out.nontrivial = reuse or applied > 0
+    ctx = "template:\n%s\nprogram:\n%s" % (c["template"], p_text)
+    try:
+        res = match_template(T, P)
+    except Exception as ex:
+        out.violations.append(Violation("tdm|honest-instance-rejected|" + exc_bucket("match", ex), "match_template raised %s: %s\n%s" % (type(ex).__name__, ex, ctx)))
+        return out
+    if not isinstance(res, dict) or set(res) != set(c["assign"]):
+        out.violations.append(Violation("tdm|result|parameter-set", "returned %r for parameters %r\n%s" % (res, sorted(c["assign"]), ctx)))
+        return out
+    for x, a in c["assign"].items():
+        want = P.variables[a]
+        got = res[x]
+        if not isinstance(got, np.ndarray) or got.shape != want.shape or not np.array_equal(got, want):
+            out.violations.append(Violation("tdm|result|value", "parameter %s (passed the p-array %s) matched to %r, the array is %r\n%s" % (x, a, got, want.tolist(), ctx)))
+            return out
+    return out
 
 
 dump_case, load_case = K.dump_case, K.load_case
@@ -153,6 +228,8 @@ def build_instance(c):
 
 def check(c):
     from blackbird.utils import match_template, TemplateError
+    if c.get("tdm"):
+        return check_tdm(c)
     try:
         inst_script, applied, desc = build_instance(c)
         t_text = render.render(c["script"])
